@@ -50,7 +50,7 @@ Unwind ==
      CASE f.t = "seq" -> ctrl' = Pop /\ UNCHANGED <<compl, active, exiting, hist>>
        [] f.t = "entering" -> ctrl' = Pop /\ UNCHANGED <<compl, active, exiting, hist>>
        [] f.t = "wbody" ->
-            /\ ctrl' = Push(Pop, [t |-> "exiting", m |-> f.m, async |-> f.async, pend |-> compl, ph |-> "call"])
+            /\ ctrl' = Push(Pop, [t |-> "exiting", m |-> f.m, async |-> f.async, pend |-> compl, ph |-> "call", xr |-> f.xr])
             /\ compl' = "normal" /\ UNCHANGED <<active, exiting, hist>>
        [] f.t = "try" ->
             IF f.ph = "body" /\ compl = "raise" /\ f.node.has_handler
@@ -94,26 +94,33 @@ Stmt ==
                                         /\ UNCHANGED <<compl, active, exiting, hist, path>>
   /\ UNCHANGED <<pid, mse>>
 
-(* __enter__ / __aenter__ : the manager is NOT listed while its enter is running *)
+(* __enter__ / __aenter__ : the manager is NOT listed while its enter is running.  A manager whose enter raises
+   (node.enter_raises) never becomes active: the with statement completes abruptly *)
 Entering ==
   /\ ctrl # <<>> /\ compl = "normal" /\ Top.t = "entering"
-  /\ LET f == Top  s == f.node IN
+  /\ LET f == Top  s == f.node
+         inBody == Push(Push(Pop, [t |-> "wbody", m |-> s.m, async |-> s.async, xr |-> s.exit_raises]), SeqF(s.body))
+     IN
      IF f.ph = "call"
      THEN IF s.async /\ mse
           THEN /\ ctrl' = Push(Pop, [f EXCEPT !.ph = "ret"])
                /\ hist' = hist \o << Ev("enter", s.m, "enter", active, 0), Ev("susp", s.m, "enter", active, 0) >>
-               /\ UNCHANGED active
-          ELSE /\ ctrl' = Push(Push(Pop, [t |-> "wbody", m |-> s.m, async |-> s.async]), SeqF(s.body))
-               /\ active' = Append(active, s.m)
+               /\ UNCHANGED <<active, compl>>
+          ELSE IF s.enter_raises
+          THEN /\ ctrl' = Pop /\ compl' = "raise" /\ UNCHANGED active
+               /\ hist' = hist \o << Ev("enter", s.m, "enter", active, 0), Ev("enter_raised", s.m, "enter", active, 0) >>
+          ELSE /\ ctrl' = inBody /\ active' = Append(active, s.m) /\ UNCHANGED compl
                /\ hist' = hist \o << Ev("enter", s.m, "enter", active, 0), Ev("entered", s.m, "enter", Append(active, s.m), 0) >>
-     ELSE /\ ctrl' = Push(Push(Pop, [t |-> "wbody", m |-> s.m, async |-> s.async]), SeqF(s.body))
-          /\ active' = Append(active, s.m)
-          /\ hist' = Append(hist, Ev("entered", s.m, "enter", Append(active, s.m), 0))
-  /\ UNCHANGED <<pid, mse, compl, exiting, path>>
+     ELSE IF s.enter_raises
+          THEN /\ ctrl' = Pop /\ compl' = "raise" /\ UNCHANGED active
+               /\ hist' = Append(hist, Ev("enter_raised", s.m, "enter", active, 0))
+          ELSE /\ ctrl' = inBody /\ active' = Append(active, s.m) /\ UNCHANGED compl
+               /\ hist' = Append(hist, Ev("entered", s.m, "enter", Append(active, s.m), 0))
+  /\ UNCHANGED <<pid, mse, exiting, path>>
 
 BodyDone ==
   /\ ctrl # <<>> /\ compl = "normal" /\ Top.t = "wbody"
-  /\ ctrl' = Push(Pop, [t |-> "exiting", m |-> Top.m, async |-> Top.async, pend |-> "normal", ph |-> "call"])
+  /\ ctrl' = Push(Pop, [t |-> "exiting", m |-> Top.m, async |-> Top.async, pend |-> "normal", ph |-> "call", xr |-> Top.xr])
   /\ UNCHANGED <<pid, mse, compl, active, exiting, hist, path>>
 
 (* __exit__ / __aexit__ : the manager is still listed, last, and exiting *)
@@ -128,7 +135,8 @@ Exiting ==
           /\ UNCHANGED <<active, compl>>
      ELSE /\ exiting' = 0 /\ active' = Remove(active, f.m)
           /\ hist' = Append(hist, Ev("exited", f.m, f.pend, Remove(active, f.m), 0))
-          /\ compl' = IF f.pend = "raise" /\ Swallows(f.m) THEN "normal" ELSE f.pend
+          \* an exit method that raises replaces whatever was pending; otherwise True swallows a pending exception
+          /\ compl' = IF f.xr THEN "raise" ELSE IF f.pend = "raise" /\ Swallows(f.m) THEN "normal" ELSE f.pend
           /\ ctrl' = Pop
   /\ UNCHANGED <<pid, mse, path>>
 
